@@ -56,12 +56,20 @@ def write_sites():
     n = 0
     for m, (rel, names) in RENDER_TIME.items():
         tree = ast.parse(open(os.path.join(REPO_SRC, rel)).read())
+        # a class with at least one method that runs at render time is a render-time object as a whole: a new helper method
+        # (e.g. a step split out of eval / render) is covered without being listed.  DT_String is the exception: the template
+        # class also has edit-time methods (munge, __setstate__, ...) that legitimately write to self.
+        render_classes = set()
+        if names is not None and m != 'DT_String':
+            for c in [x for x in ast.walk(tree) if isinstance(x, ast.ClassDef)]:
+                if any(isinstance(f, ast.FunctionDef) and f.name in names and f.name not in ('__init__', '__call__') for f in c.body):
+                    render_classes.add(c.name)
         for fn in [x for x in ast.walk(tree) if isinstance(x, ast.FunctionDef)]:
-            if names is not None and fn.name not in names:
-                continue
-            if fn.name == '__init__':
-                continue
             cls = _class_of(tree, fn)
+            if names is not None and fn.name not in names and cls not in render_classes:
+                continue
+            if fn.name in ('__init__', '__setstate__', '__getstate__'):
+                continue
             if not fn.args.args or fn.args.args[0].arg != 'self':
                 continue
             qual = '%s.%s' % (cls, fn.name) if cls else fn.name
